@@ -63,6 +63,10 @@ e9ec943 C11
 e9b2377 C09
 80bcf53 C12
 6655474 C14
+2879245 C01
+f57bba0 C07
+cab7a79 C11
+3c606c4 C11
 L
 fi
 mv $out.tmp $out
